@@ -41,6 +41,49 @@ fn failed(msg: String) -> Json {
     json!({"ok": false, "type": 0, "size": [], "dist": [], "base": [], "consumed": 0, "hsize": 0, "err": msg})
 }
 
+/// a reader that hands out at most `k` bytes per call, as sockets, pipes and small buffered readers do
+struct Chunked<'a> {
+    data: &'a [u8],
+    pos: usize,
+    k: usize,
+}
+impl std::io::Read for Chunked<'_> {
+    fn read(&mut self, buf: &mut [u8]) -> std::io::Result<usize> {
+        let n = self.k.min(buf.len()).min(self.data.len() - self.pos);
+        buf[..n].copy_from_slice(&self.data[self.pos..self.pos + n]);
+        self.pos += n;
+        Ok(n)
+    }
+}
+
+/// `Entry::from_read` through readers with short reads; only the results that differ from the whole-buffer reader are kept
+fn decode_chunked(d: &[u8], whole: &Json) -> Vec<Json> {
+    const P: u64 = 1000;
+    let mut out = Vec::new();
+    for k in [1usize, 2, 3, 7, 19, 21] {
+        let j = match guarded(|| {
+            let mut r = Chunked { data: d, pos: 0, k };
+            data::Entry::from_read(&mut r, P, 20).map(|e| (e, r.pos as u64))
+        }) {
+            Ok(Ok((e, pos))) => {
+                let mut j = describe(&e, P);
+                j["pos"] = Json::from(pos);
+                j
+            }
+            Ok(Err(e)) => failed(e.to_string()),
+            Err(p) => failed(format!("panic: {p}")),
+        };
+        // error texts may differ, the outcome may not
+        let same = if !j["ok"].as_bool().unwrap_or(false) && !whole["ok"].as_bool().unwrap_or(false) { true } else { &j == whole };
+        if !same {
+            let mut j = j;
+            j["k"] = Json::from(k as u64);
+            out.push(j);
+        }
+    }
+    out
+}
+
 fn decode_both(d: &[u8]) -> (Json, Json) {
     const P: u64 = 1000;
     let mem = match guarded(|| data::Entry::from_bytes(d, P, 20)) {
@@ -60,6 +103,9 @@ fn decode_both(d: &[u8]) -> (Json, Json) {
         Ok(Err(e)) => failed(e.to_string()),
         Err(p) => failed(format!("panic: {p}")),
     };
+    let mut read = read;
+    let differing = decode_chunked(d, &read);
+    read["chunked_differs"] = Json::Array(differing);
     (mem, read)
 }
 
